@@ -23,6 +23,17 @@ type Mutant struct {
 	Why      string `json:"why"`
 	// Equivalent marks a behaviour-preserving edit: the rules must stay silent on it.
 	Equivalent bool `json:"equivalent,omitempty"`
+	// Edits are further replacements of the same variant (e.g. a rename across files);
+	// All replaces every occurrence.
+	Edits []MutEdit `json:"edits,omitempty"`
+	All   bool      `json:"all,omitempty"`
+}
+
+type MutEdit struct {
+	File string `json:"file"`
+	Old  string `json:"old"`
+	New  string `json:"new"`
+	All  bool   `json:"all,omitempty"`
 }
 
 type mutantResult struct {
@@ -103,17 +114,35 @@ func runAudit(def *PropDef, repo, vdir string, seed int64) map[string]interface{
 
 func runMutant(exe string, def *PropDef, repo, vdir string, m Mutant) mutantResult {
 	res := mutantResult{ID: m.ID, Why: m.Why}
-	path := filepath.Join(repo, m.File)
-	src, err := os.ReadFile(path)
-	if err != nil || !strings.Contains(string(src), m.Old) {
-		res.Status = "skipped"
-		res.Reported = []string{"anchor text not found in " + m.File + " (the construct was refactored): variant not applicable"}
-		return res
+	edits := append([]MutEdit{{File: m.File, Old: m.Old, New: m.New, All: m.All}}, m.Edits...)
+	files := map[string]string{}
+	for _, e := range edits {
+		path := filepath.Join(repo, e.File)
+		cur, ok := files[path]
+		if !ok {
+			src, err := os.ReadFile(path)
+			if err != nil {
+				res.Status = "skipped"
+				res.Reported = []string{"cannot read " + e.File}
+				return res
+			}
+			cur = string(src)
+		}
+		if !strings.Contains(cur, e.Old) {
+			res.Status = "skipped"
+			res.Reported = []string{"anchor text not found in " + e.File + " (the construct was refactored): variant not applicable"}
+			return res
+		}
+		if e.All {
+			cur = strings.ReplaceAll(cur, e.Old, e.New)
+		} else {
+			cur = strings.Replace(cur, e.Old, e.New, 1)
+		}
+		files[path] = cur
 	}
-	mutated := strings.Replace(string(src), m.Old, m.New, 1)
 	ovf, _ := os.CreateTemp("", "prunnerlint-overlay-*.json")
 	defer os.Remove(ovf.Name())
-	b, _ := json.Marshal(map[string]string{path: mutated})
+	b, _ := json.Marshal(files)
 	ovf.Write(b)
 	ovf.Close()
 	out, _ := os.CreateTemp("", "prunnerlint-obs-*.json")
